@@ -226,7 +226,7 @@ def display_bytes(P, v, ty=None, spec=None, kind='display'):
     if isinstance(v, (StrRef, StringV)):
         bs = as_bytes(v)
         if kind == 'debug':
-            return debug_str(bs)
+            return debug_str(bs, P)
         return list(bs)
     if isinstance(v, Sc):
         t = (ty or '').strip().lstrip('&').strip()
@@ -264,7 +264,7 @@ def display_bytes(P, v, ty=None, spec=None, kind='display'):
             return render(P, v.p)
         if v.tag in ('Path', 'PathBuf', 'OsStr', 'OsString', 'Display'):
             bs = as_bytes(v.p)
-            return debug_str(bs) if kind == 'debug' else list(bs)
+            return debug_str(bs, P) if kind == 'debug' else list(bs)
         if v.tag == 'StringError':
             return list(as_bytes(v.p))
         if v.tag == 'ParseIntError':
@@ -301,7 +301,7 @@ def display_bytes(P, v, ty=None, spec=None, kind='display'):
     raise Unsupported('format of %s (%s)' % (type(v).__name__, kind))
 
 
-def debug_str(bs):
+def debug_str(bs, P=None):
     out = [34]
     i = 0
     cb = concrete_bytes(bs)
@@ -327,9 +327,43 @@ def debug_str(bs):
             else:
                 esc += ch
         return [34] + list(esc.encode('utf-8')) + [34]
-    # symbolic content: Debug escaping of symbolic bytes is length-changing; the debug
-    # text is only used in log/error messages -> placeholder of the same bytes
-    return [34] + list(bs) + [34]
+    # symbolic content: the escaping is decided byte by byte on the path (it changes the length);
+    # multi-byte characters are concrete in every harness and pass through
+    if P is None:
+        return [34] + list(bs) + [34]
+    from ..interp import binop as _binop, Sc as _Sc
+
+    def hexdigit(x):
+        z = x.z() if isinstance(x, _Sc) else z3.BitVecVal(x, 8)
+        return _Sc(z3.If(z3.ULT(z, 10), z + 48, z + 87), 8)
+    for b in bs:
+        if not isinstance(b, _Sc) or b.concrete:
+            v = b.v if isinstance(b, _Sc) else b
+            out += debug_str([v])[1:-1]
+            continue
+        if P.branch(_binop('Eq', b, _Sc(34, 8))):
+            out += [92, 34]
+        elif P.branch(_binop('Eq', b, _Sc(92, 8))):
+            out += [92, 92]
+        elif P.branch(_binop('Eq', b, _Sc(10, 8))):
+            out += [92, 110]
+        elif P.branch(_binop('Eq', b, _Sc(13, 8))):
+            out += [92, 114]
+        elif P.branch(_binop('Eq', b, _Sc(9, 8))):
+            out += [92, 116]
+        elif P.branch(_binop('Lt', b, _Sc(32, 8))) or P.branch(_binop('Eq', b, _Sc(127, 8))):
+            out += list(b'\\u{')
+            if P.branch(_binop('Lt', b, _Sc(16, 8))):
+                out.append(hexdigit(b))
+            else:
+                out.append(hexdigit(_Sc(z3.LShR(b.z(), 4), 8)))
+                out.append(hexdigit(_Sc(b.z() & 15, 8)))
+            out.append(125)
+        elif P.branch(_binop('Ge', b, _Sc(128, 8))):
+            raise Unsupported('Debug of a symbolic non-ASCII byte')
+        else:
+            out.append(b)
+    return out + [34]
 
 
 def debug_value(P, v):
